@@ -144,7 +144,7 @@ def normalize_grid(
             size = torch.Size(reversed(grid.shape[2:]))  # X,...
     zero = torch.tensor(0, dtype=grid.dtype, device=grid.device)
     size = torch.as_tensor(size, dtype=grid.dtype, device=grid.device)
-    size_ = size.sub(1) if align_corners else size
+    size_ = size.sub(1).clamp_(min=1) if align_corners else size
     if not channels_last:
         grid = move_dim(grid, 1, -1)
     if side_length != 1:
